@@ -382,6 +382,7 @@ func (ci *checkImpl[C]) Batch(tier string, seed uint64) int {
 
 	sort.Slice(founds, func(i, j int) bool { return founds[i].idx < founds[j].idx })
 	exit := 0
+	unreproduced := 0
 	reported := map[string]bool{}
 	nviol := 0
 	for _, f := range founds {
@@ -404,8 +405,9 @@ func (ci *checkImpl[C]) Batch(tier string, seed uint64) int {
 		if !confirmReplay(path) {
 			path = ci.writeReplay(seed, f.idx, f.seed, f.c, f.v, false)
 			if !confirmReplay(path) {
-				fmt.Printf("INFRA: violation %s/%s of run %d does not reproduce in a fresh process (harness nondeterminism); scenario at %s\n", f.v.Class, f.v.Site, f.idx, path)
-				return 2
+				fmt.Printf("note: violation %s/%s of run %d does not reproduce in a fresh process (state carried over from earlier runs of this process, or harness nondeterminism); scenario at %s\n", f.v.Class, f.v.Site, f.idx, path)
+				unreproduced++
+				continue
 			}
 		}
 		fmt.Printf("VIOLATION property=%s replay=%s\n", s.Property, path)
@@ -413,6 +415,11 @@ func (ci *checkImpl[C]) Batch(tier string, seed uint64) int {
 		exit = 1
 	}
 
+	if exit == 0 && unreproduced > 0 {
+		// nothing replayable to report: trouble of the machinery, not a verdict
+		fmt.Printf("INFRA: %d violation(s) seen in the batch could not be reproduced in a fresh process\n", unreproduced)
+		return 2
+	}
 	var distinct int64
 	for _, v := range cases {
 		distinct += v
